@@ -105,15 +105,20 @@ def _main(pid, tier, seed, replay_file):
     # 1 tables ---------------------------------------------------------------
     tables = {}
     try:
-        tables = extract_tables.generate(mod.TABLES)
+        tables = extract_tables.generate_isolated(mod.TABLES) if mod.TABLES else {}
     except Exception as e:       # source no longer has the shape the translator understands
         broken.append({'kind': 'table-extraction', 'what': '%s: %s' % (type(e).__name__, e)})
         log('table extraction failed:', e)
     # every other generated file is brought in line with the tree under check as well (the driver imports all
     # of them); a table of another property that cannot be extracted is that property's business
-    for other in sorted(set(extract_tables.all_tables()) - set(mod.TABLES)):
+    try:
+        others = sorted(set(extract_tables.all_tables()) - set(mod.TABLES))
+    except Exception as e:
+        others = []
+        log('table registry could not be loaded: %s' % e)
+    for other in others:
         try:
-            extract_tables.generate([other])
+            extract_tables.generate_isolated([other])
         except Exception as e:
             log('table %s (not used by %s) could not be regenerated: %s' % (other, pid, e))
 
